@@ -145,6 +145,24 @@ fn registry() -> Vec<CheckDef> {
         run: kvlib::c03::run,
         replay: kvlib::c03::replay,
         assumptions: &["history invariant on the intercepted trace, per inode: last write/copy_file_range/ftruncate/O_TRUNC < successful fsync < rename/link that makes it visible; no write bit at the moment of publication (stat taken by the shim right before the call); no failed fsync before publication; no write/truncate/chmod/fchmod after visibility", "the application's own writes into its source files happen before the library is called and are not traced", "ordering is checked, not power loss itself"],
+    },
+    CheckDef {
+        id: "C02",
+        level: "fault_enumeration",
+        workers: 16,
+        rule: "complete enumeration of {plain/sharded set, put, get, touch, temp_dir; stacked set, put, set_temp_file, put_temp_file, ensure, get_or_update x {Accept, Promote, Replace}; raw_cache::prune} x pre-state {cache directory missing, empty, shard directories missing, key absent, key present, over capacity with mixed read marks and stale debris, secondary hit to promote} x writer {plain, sharded} x trigger {fires, does not fire}; for each, the fault-free trace gives N and for EVERY k in 0..=N a forked child process is killed (_exit inside the interposer) immediately before filesystem call k; non-trivial = the tree left behind differs from both the pre-state and the completed post-state; distinct by construction (op, pre-state, front-end, trigger, k)",
+        run: kvlib::c02::run,
+        replay: kvlib::c02::replay,
+        assumptions: &["crash = process death between two libc calls (power loss / un-synced data is C03's concern)", "a temp name still hard-linked to a published inode is legal debris", "usability is judged by a fresh handle: get/touch on every key agree with the disk, set+get, put on existing, ensure of a fresh key, a write with maintenance firing; then all debris is back-dated by two hours and a maintenance of each directory must remove it"],
+    },
+    CheckDef {
+        id: "C18",
+        level: "fault_enumeration",
+        workers: 16,
+        rule: "the (operation, pre-state, front-end, trigger) product of C02; for each, every filesystem call k of the fault-free trace x every errno plausible for that call (EIO, ESTALE everywhere; EACCES for path and metadata calls; ENOSPC for creating/writing calls, mkdir, link, rename, fsync; EMFILE for open/opendir) injected once, the operation then continues; non-trivial = the injected call was reached; distinct by construction (op, pre-state, front-end, trigger, k, errno)",
+        run: kvlib::c18::run,
+        replay: kvlib::c18::replay,
+        assumptions: &["a failing close executes the real close first (Linux semantics)", "success is verified against the tree with the shim bypassed; Err although the effect happened is allowed", "ESTALE/ENOENT on a lookup's own open may legitimately turn a hit into a miss (documented as benign)", "the only panic accepted is the documented 'auto_sync failed' of Cache::set/put(path) under an injected fsync failure"],
     }]
 }
 
@@ -164,6 +182,21 @@ fn main() {
         Some("run") => orchestrate(&args[2], &args[3]),
         Some("worker") => worker(&args[2..]),
         Some("replay") => replay(&args[2]),
+        Some("trace-os") => {
+            // debugging aid: print the fault-free trace of an (op, pre, fe, fire) case
+            let os = kvlib::opstate::OsCase { op: args[2].parse().unwrap(), pre: args[3].parse().unwrap(), fe: args[4].parse().unwrap(), size: 17, fire: args[5] == "1" };
+            drop_privileges();
+            let scratch = Scratch::new("dbg");
+            let root = scratch.p("w");
+            let b = kvlib::opstate::build(&root, &os);
+            let world = trace_world(&[&root]);
+            let (r, ev) = traced(&world, || kvlib::opstate::run_op(&root, &b));
+            for e in ev.iter() {
+                println!("{:>3} {}", if e.idx == u32::MAX { "app".to_string() } else { e.idx.to_string() }, e.short());
+            }
+            println!("=> {:?}", r.map(|r| r.short()));
+            0
+        }
         _ => {
             eprintln!("usage: kv run <ID> <quick|thorough> | kv replay <file>");
             2
